@@ -1,7 +1,7 @@
 (* Properties_C14.v -- C14: decoder reads are split-invariant, stop exactly at
    the declared length, and report faithful length and CRC.
    Statements only; proofs are in P_Decoder.v (model: Decoder.v). *)
-From Lhasa Require Import Base ListN DecBase Crc16 P_Crc16 Decoder P_Decoder.
+From Lhasa Require Import Base ListN DecBase Crc16 P_Crc16 Decoder P_Decoder P_DecoderInv.
 Local Open Scope N_scope.
 
 Section C14.
@@ -73,6 +73,47 @@ Section C14.
   Proof. exact (read_at_most_asked_proof dread max_read block_size Hd). Qed.
 End C14.
 
+(* The same statements for inner decoders that return normally only in states
+   satisfying an invariant I that they preserve (every real decoder: ring sizes,
+   positions, closed trees ...).  I := fun _ => True gives the statements above. *)
+Section C14_inv.
+  Context {cbs st : Type}.
+  Variable dread : st -> cbs -> outcome (list N * st * cbs).
+  Variable max_read block_size : N.
+  Variable I : st -> Prop.
+  Hypothesis Htot : forall s c, I s ->
+    exists ch s' c', dread s c = Ok (ch, s', c') /\ nlen ch <= max_read /\ I s'.
+
+  Theorem reads_are_one_read_I : forall ks s c L, I s -> sum_N ks < 2 ^ 62 ->
+    exists os d', run_reads dread max_read block_size (lha_decoder_new s c L) ks = Ok (os, d') /\
+                  lha_decoder_read dread max_read block_size (lha_decoder_new s c L) (sum_N ks) = Ok (concat os, [], d').
+  Proof. exact (reads_are_one_read_inv dread max_read block_size I Htot). Qed.
+
+  Theorem split_invariant_I : forall ks1 ks2 s c L os1 d1 os2 d2, I s ->
+    sum_N ks1 = sum_N ks2 -> sum_N ks1 < 2 ^ 62 ->
+    run_reads dread max_read block_size (lha_decoder_new s c L) ks1 = Ok (os1, d1) ->
+    run_reads dread max_read block_size (lha_decoder_new s c L) ks2 = Ok (os2, d2) ->
+    concat os1 = concat os2 /\ d1 = d2.
+  Proof. exact (split_invariant_inv dread max_read block_size I Htot). Qed.
+
+  Theorem length_and_crc_faithful_I : forall ks s c L os d', I s ->
+    sum_N ks < 2 ^ 62 -> run_reads dread max_read block_size (lha_decoder_new s c L) ks = Ok (os, d') ->
+    nlen (concat os) <= L /\
+    lha_decoder_get_length d' = nlen (concat os) /\
+    lha_decoder_get_crc d' = lha_crc16_buf 0 (concat os) /\
+    (Forall (fun b => b < 256) (concat os) -> lha_decoder_get_crc d' = crc_bitwise 0 (concat os)).
+  Proof. exact (length_and_crc_faithful_inv dread max_read block_size I Htot). Qed.
+
+  Theorem stops_at_declared_length_I : forall (d : decoder) n, I (d_inner d) ->
+    d_stream_pos d = d_stream_length d -> d_monitor d = false -> n < 2 ^ 62 ->
+    lha_decoder_read dread max_read block_size d n = Ok ([], [], d).
+  Proof. exact (stops_at_declared_length_inv dread max_read block_size I Htot). Qed.
+End C14_inv.
+
+Print Assumptions reads_are_one_read_I.
+Print Assumptions split_invariant_I.
+Print Assumptions length_and_crc_faithful_I.
+Print Assumptions stops_at_declared_length_I.
 Print Assumptions reads_are_one_read.
 Print Assumptions split_invariant.
 Print Assumptions length_and_crc_faithful.
